@@ -108,10 +108,13 @@ func c10Compare(name string, pre, post vSnap, preW, postW vWorld, disc []int, in
 func c10RelTarget(pre vSnap, target int) string {
 	ti := vIndexOf(pre.Seq, target)
 	ci := vIndexOf(pre.Seq, pre.Cur)
-	if ti < 0 || ci < 0 {
+	switch {
+	case ti < 0 || ci < 0:
 		return "new"
+	case ti > ci:
+		return "later"
 	}
-	return fmt.Sprintf("cur%+d", ti-ci)
+	return "earlier"
 }
 
 func c10OpDesc(op vOp) string {
@@ -389,7 +392,7 @@ func (cr *c10Runner) checkState(st vState) {
 		return res, false
 	}
 
-	withTriggers := r.Thorough() || st.Tag == "full"
+	withTriggers := r.Thorough() || st.Tag == "full" || st.Tag == "config-per-revision"
 	for _, op := range c10OpsUnderTest(st.A, r.Thorough()) {
 		limit := -1
 		for k := 0; limit < 0 || k <= limit; k++ {
@@ -458,31 +461,44 @@ func (s *verifC10Suite) TestVerifC10(c *C) {
 		vFinish(r, "replay of one stored case")
 	}
 
-	depth := r.Pick(4, 5) // full generating alphabet
-	shapeDepth := r.Pick(6, 7)
-	if v := os.Getenv("VERIF_C10_DEPTH"); v != "" {
-		fmt.Sscanf(v, "%d,%d", &depth, &shapeDepth)
+	// generation plan: (root history, alphabet, depth). The quick tier replaces the deep breadth-first
+	// generation of the shape alphabet by two canned root histories that lead straight to the deep shapes.
+	type genPlan struct {
+		Name  string `json:"name"`
+		Root  []vOp  `json:"root"`
+		Shape bool   `json:"shape_alphabet"`
+		Depth int    `json:"depth"`
+	}
+	rootKept4 := []vOp{{K: "set-retain", V: "4"}, {K: "install"}, {K: "refresh-new"}, {K: "refresh-new"}, {K: "refresh-new"}, {K: "set-retain", V: ""}}
+	rootConfig := []vOp{{K: "install"}, {K: "set-config"}, {K: "refresh-new"}, {K: "set-config"}}
+	var plans []genPlan
+	if r.Quick() {
+		plans = []genPlan{{"full", nil, false, 3}, {"kept4-retain-lowered", rootKept4, true, 1}, {"config-per-revision", rootConfig, false, 0}}
+	} else {
+		plans = []genPlan{{"full", nil, false, 5}, {"shape", nil, true, 7}}
+	}
+	if v := os.Getenv("VERIF_C10_DEPTH"); v != "" { // calibration aid: "full,shape" depths from the empty root
+		var d1, d2 int
+		fmt.Sscanf(v, "%d,%d", &d1, &d2)
+		plans = []genPlan{{"full", nil, false, d1}, {"shape", nil, true, d2}}
 	}
 	statesFile := filepath.Join(eng.WorkDir(), "pmap", "C10", "states-"+r.Tier+".json")
 	var states []vState
 	if os.Getenv("VERIF_SHARD") == "" {
 		t0 := time.Now()
 		var trans int
-		states, trans = vBFS("C10", c, []vPath{{}}, c10Gen(r.Thorough()), depth, 16)
-		for i := range states {
-			states[i].Tag = "full"
-		}
-		if shapeDepth > 0 {
-			seen := map[string]bool{}
-			for _, s := range states {
-				seen[s.Key] = true
+		seen := map[string]bool{}
+		for _, pl := range plans {
+			gen := c10Gen(r.Thorough())
+			if pl.Shape {
+				gen = c10GenShape
 			}
-			more, t2 := vBFS("C10", c, []vPath{{}}, c10GenShape, shapeDepth, 16)
+			more, t2 := vBFS("C10", c, []vPath{{Ops: pl.Root}}, gen, pl.Depth, 16)
 			trans += t2
 			for _, s := range more {
 				if !seen[s.Key] {
 					seen[s.Key] = true
-					s.Tag = "shape"
+					s.Tag = pl.Name
 					states = append(states, s)
 				}
 			}
@@ -497,8 +513,8 @@ func (s *verifC10Suite) TestVerifC10(c *C) {
 		for _, s := range states {
 			byDepth[fmt.Sprint(s.Depth)]++
 		}
-		r.Info("bounds", map[string]interface{}{"generation_depth": depth, "shape_generation_depth": shapeDepth, "states_by_depth": byDepth, "generation_seconds": int(time.Since(t0).Seconds())})
-		fmt.Printf("C10: %d states (depth<=%d) %v in %v\n", len(states), depth, byDepth, time.Since(t0))
+		r.Info("bounds", map[string]interface{}{"generation_plans": plans, "states_by_depth_below_root": byDepth, "generation_seconds": int(time.Since(t0).Seconds())})
+		fmt.Printf("C10: %d states %v in %v\n", len(states), byDepth, time.Since(t0))
 		if os.Getenv("VERIF_C10_LIST") != "" {
 			for _, s := range states {
 				fmt.Println(s.Depth, s.Key)
